@@ -9,6 +9,7 @@ from typing import TYPE_CHECKING
 
 import mypy.nodes as mp_nodes
 import mypy.types as mp_types
+from mypy.util import correct_relative_import
 
 import safeds_stubgen.api_analyzer._types as sds_types
 from safeds_stubgen import is_internal
@@ -93,7 +94,9 @@ class MyPyAstVisitor:
                     )
 
             elif isinstance(import_, mp_nodes.ImportFrom):
-                import_id = f"{import_.id}." if import_.id else ""
+                # Resolve the leading dots of a relative import, so that re-exports match qualified names
+                abs_id, _ = correct_relative_import(node.fullname, import_.relative, import_.id, is_package)
+                import_id = f"{abs_id}." if abs_id else ""
                 for import_name, import_alias in import_.names:
                     qualified_imports.append(
                         QualifiedImport(
@@ -103,8 +106,9 @@ class MyPyAstVisitor:
                     )
 
             elif isinstance(import_, mp_nodes.ImportAll):
+                abs_id, _ = correct_relative_import(node.fullname, import_.relative, import_.id, is_package)
                 wildcard_imports.append(
-                    WildcardImport(import_.id),
+                    WildcardImport(abs_id),
                 )
 
         # Search for a Docstring
